@@ -103,7 +103,8 @@ def main():
         if a.lane:
             target = f"/var/tmp/lane-{a.lane}/repo"
             os.makedirs(target, exist_ok=True)
-            sh(["rsync", "-a", "--delete", "--exclude", "target", "--exclude", ".git", REPO + "/", target + "/"])
+            # a pristine copy of /repo's HEAD (NOT of its working tree: another run may have a seeded patch applied there right now)
+            sh(f"find {target} -mindepth 1 -maxdepth 1 ! -name target -exec rm -rf {{}} + ; git -C {REPO} archive HEAD | tar -x -C {target}")
             cenv["SEED_REPO"] = target
             cenv["SEED_VERIF_SCRATCH"] = f"/var/tmp/lane-{a.lane}/scratch"
             cenv.setdefault("SEED_VERIF_JOBS", "6")
